@@ -504,6 +504,11 @@ def run(ctx):
     from . import c16
     from ..costlib import cost_specs
     c16.r16a(ctx, cost_specs(repo), rule='R20i', only=('ne16_latency',))
+    # R20l: an emptied precision reaches the model as a float residue around zero (possibly a few
+    # ulps NEGATIVE): the quotient helper floors, so the remainder helper must be the floor
+    # modulo (result in [0, N)) for "full tiles + ragged tile" to price it at ~0; a truncated
+    # remainder credits a negative tile and the emptying candidate wins although the real cost rises
+    c16.r16b(ctx, rule='R20l', only=('ne16_latency',))
     ctx.assume('shares are multiples of 1/C represented in float32; argsort returns a permutation')
     ctx.note('not decided: that _reassign_precisions meets every count for every score matrix '
              '(greedy algorithm correctness)')
